@@ -236,6 +236,17 @@ impl<'a> Out<'a> {
             self.emit_with(c, "", None);
         }
     }
+    /// like [emit] but with explicit lines (pairs of character indices)
+    fn emit_lines(&mut self, c: &Case, clines: Vec<(usize, usize)>) {
+        if c.enc == 16 {
+            let (id, clines) = self.emit_with(c, "", Some(clines));
+            let items: Vec<Item> = normalise16(&c.items).iter().map(|it| match it { Item::Lone(_) => Item::Ch(0xFFFD), x => *x }).collect();
+            let twin = Case { enc: 8, dir: c.dir, items, ds: c.ds.clone(), fam: c.fam.clone(), max_line_chars: c.max_line_chars };
+            self.emit_with(&twin, &format!(" twin:{}", id), Some(clines));
+        } else {
+            self.emit_with(c, "", Some(clines));
+        }
+    }
     fn raw(&mut self, line: String, key: &str) {
         writeln!(self.w, "{}", line).unwrap();
         *self.stats.entry(key.to_string()).or_insert(0) += 1;
@@ -604,6 +615,123 @@ pub fn main(args: &[String]) {
         o.emit(&Case { enc, dir: dir_of(d), items, ds: Some(used), fam: "G5".into(), max_line_chars: 4 });
     }
 
+    // ---- G7: texts generated from a small grammar of the structures the isolating-run-sequence logic lives on:
+    // sibling / nested matched isolates with content, bracket pairs spanning isolates, stray PDIs and initiators
+    // inside brackets, embeddings inside isolates, numbers after AL across isolates, ...
+    {
+        let n7 = if thorough { 2500000 } else { 260000 };
+        // every case draws from its own small THEME (2-4 atom classes, one or two initiators): a specific pattern
+        // over a few classes is then far more likely than under a uniform draw from all classes
+        let all_atoms = ["L", "R", "AL", "EN", "AN", "ES", "ET", "CS", "NSM", "ON", "WS", "BN"];
+        let strong = ["L", "R", "AL", "L", "R"];
+        fn gen_seq(o: &mut Out, atoms: &[&str], inits: &[u32], depth: usize, budget: &mut usize, out: &mut Vec<Item>) {
+            let n = 1 + o.rng.below(if depth == 0 { 5 } else { 3 });
+            for _ in 0..n {
+                if *budget == 0 { return; }
+                let r = o.rng.below(100);
+                let k = o.rng.below(4);
+                if r < 46 || depth >= 3 {
+                    let a = *o.rng.pick(atoms);
+                    out.push(Item::Ch(rep(sym(a), k))); *budget -= 1;
+                } else if r < 62 {
+                    // matched isolate with content (possibly empty)
+                    let init = *o.rng.pick(inits);
+                    out.push(Item::Ch(init)); *budget = budget.saturating_sub(2);
+                    if o.rng.chance(4, 5) { gen_seq(o, atoms, inits, depth + 1, budget, out); }
+                    out.push(Item::Ch(0x2069));
+                } else if r < 76 {
+                    // bracket pair around a sub-sequence
+                    let round = o.rng.chance(1, 2);
+                    out.push(Item::Ch(rep(sym(if round { "(" } else { "[" }), k))); *budget = budget.saturating_sub(2);
+                    gen_seq(o, atoms, inits, depth + 1, budget, out);
+                    out.push(Item::Ch(rep(sym(if round { ")" } else { "]" }), k)));
+                } else if r < 84 {
+                    // embedding / override around a sub-sequence (sometimes left open)
+                    let init = [0x202Au32, 0x202B, 0x202D, 0x202E][o.rng.below(4)];
+                    out.push(Item::Ch(init)); *budget = budget.saturating_sub(2);
+                    gen_seq(o, atoms, inits, depth + 1, budget, out);
+                    if o.rng.chance(3, 4) { out.push(Item::Ch(0x202C)); }
+                } else if r < 90 {
+                    out.push(Item::Ch(0x2069)); *budget -= 1;                 // stray PDI
+                } else if r < 94 {
+                    out.push(Item::Ch(*o.rng.pick(inits))); *budget -= 1;   // stray initiator
+                } else if r < 97 {
+                    out.push(Item::Ch(0x202C)); *budget -= 1;                 // stray PDF
+                } else {
+                    out.push(Item::Ch(rep(sym(if o.rng.chance(1, 2) { ")" } else { "(" }), k))); *budget -= 1;   // stray bracket
+                }
+            }
+        }
+        for _ in 0..n7 {
+            let mut items = Vec::new();
+            let mut theme: Vec<&str> = vec![*o.rng.pick(&strong)];
+            for _ in 0..1 + o.rng.below(3) { theme.push(*o.rng.pick(&all_atoms)); }
+            if o.rng.chance(1, 2) { theme.push(*o.rng.pick(&strong)); }
+            let mut inits: Vec<u32> = vec![[0x2066u32, 0x2067, 0x2068][o.rng.below(3)]];
+            if o.rng.chance(1, 3) { inits.push([0x2066u32, 0x2067, 0x2068][o.rng.below(3)]); }
+            let mut budget = 4 + o.rng.below(if thorough { 12 } else { 9 });
+            gen_seq(&mut o, &theme, &inits, 0, &mut budget, &mut items);
+            if items.len() < 3 { continue; }
+            // most of these cases carry no lines: they are about the resolved levels
+            let enc = if o.rng.chance(1, 8) { 16 } else { 8 };
+            let d = dir_of(o.rng.below(3));
+            let lines_ok = o.rng.chance(1, 10);
+            o.emit(&Case { enc, dir: d, items, ds: None, fam: "G7".into(), max_line_chars: if lines_ok { 3 } else { usize::MAX } });
+        }
+    }
+
+    // ---- G6: long uniform runs with a perturbation next to a power-of-two code-unit offset ----------------
+    // (block-wise "fast paths" over 8/16/32/64/128 units go wrong exactly there: a run boundary at a block
+    // start, a removed character right after a block, a surrogate pair straddling a block end)
+    {
+        let n6 = if thorough { 5000 } else { 900 };
+        let nb_syms: Vec<usize> = (0..nsym).filter(|&s| REPS[s].0 != "B").collect();
+        let bases = ["L", "R", "R", "AL", "EN", "AN", "ON", "WS", "ET", "NSM", "L", "R"];
+        let targets: &[usize] = if thorough { &[8, 16, 32, 64, 128, 256] } else { &[8, 16, 16, 32, 32, 64, 64, 128] };
+        for _ in 0..n6 {
+            let enc: u8 = if o.rng.chance(2, 5) { 16 } else { 8 };
+            let b1 = sym(*o.rng.pick(&bases));
+            let k1 = o.rng.below(4);
+            let c1 = Item::Ch(rep(b1, k1));
+            let w1 = units(enc, &c1).max(1);
+            let target = *o.rng.pick(targets);
+            let mut items: Vec<Item> = Vec::new();
+            // optional short prefix (shifts the alignment of everything after it; also the start of sub-lines)
+            let npre = if o.rng.chance(1, 3) { 1 + o.rng.below(2) } else { 0 };
+            for j in 0..npre { let s = *o.rng.pick(&nb_syms); items.push(Item::Ch(rep(s, j))); }
+            // first run: up to the target offset (counted from the text start or from the prefix end), +-1 character
+            let n1 = (target / w1 + o.rng.below(3)).saturating_sub(1).max(1);
+            for _ in 0..n1 { items.push(c1); }
+            // perturbation: 1-2 characters of any class (removed characters, opposite strong, supplementary ...)
+            for j in 0..1 + o.rng.below(2) {
+                let s = if o.rng.chance(1, 3) { sym(*o.rng.pick(&["BN", "RLE", "PDF", "LRE", "WS", "S"])) } else { *o.rng.pick(&nb_syms) };
+                items.push(Item::Ch(rep(s, j + o.rng.below(4))));
+            }
+            // second run: the same character again (a run at the first level resumes) or another class, longer than a block
+            let (b2, k2) = if o.rng.chance(2, 3) { (b1, k1) } else { (sym(*o.rng.pick(&bases)), o.rng.below(4)) };
+            let c2 = Item::Ch(rep(b2, k2));
+            let w2 = units(enc, &c2).max(1);
+            let n2 = (target + o.rng.below(target / 2 + 2)) / w2 + 1;
+            for _ in 0..n2 { items.push(c2); }
+            // sometimes a supplementary / other character inside the second run near its block end, then more of the run
+            if o.rng.chance(1, 3) {
+                let s = *o.rng.pick(&nb_syms);
+                items.push(Item::Ch(rep(s, 3)));
+                for _ in 0..(target / w2 / 2 + 1) { items.push(c2); }
+            }
+            for j in 0..o.rng.below(3) { let s = *o.rng.pick(&nb_syms); items.push(Item::Ch(rep(s, j))); }
+            let n = items.len();
+            let d = dir_of(o.rng.below(3));
+            // lines: the whole text, the text after the prefix, and a few cuts near both ends
+            let mut lines = vec![(0, n)];
+            if npre > 0 { lines.push((npre, n)); }
+            if n > 3 { lines.push((1, n)); lines.push((0, n - 1)); lines.push((o.rng.below(3), n - o.rng.below(3))); }
+            lines.sort(); lines.dedup();
+            let lines: Vec<(usize, usize)> = lines.into_iter().filter(|l| l.0 < l.1).collect();
+            o.emit_lines(&Case { enc, dir: d, items, ds: None, fam: "G6".into(), max_line_chars: 0 }, lines);
+        }
+    }
+
     // ---- C13: isolate pairs ------------------------------------------------------------------------
     let n13 = if thorough { 15000 } else { 1500 };
     let nb_syms: Vec<usize> = (0..nsym).filter(|&s| REPS[s].0 != "B").collect();
@@ -653,6 +781,8 @@ pub fn main(args: &[String]) {
             let k2 = o.rng.below(4);
             prefix.push(Item::Ch(rep(sym(if round { "(" } else { "[" }), k2)));
             if o.rng.chance(1, 4) { let s = *o.rng.pick(&nb_syms); if !["LRI", "RLI", "FSI", "PDI", "(", ")", "[", "]"].contains(&REPS[s].0) { prefix.push(Item::Ch(rep(s, k))); } }
+            // a stray PDI (matching nothing) between the bracket and the isolate: depth counting must not go wrong
+            if o.rng.chance(1, 4) { prefix.push(Item::Ch(0x2069)); }
             let mut suf2 = Vec::new();
             if o.rng.chance(1, 4) { let s = *o.rng.pick(&nb_syms); if !["LRI", "RLI", "FSI", "PDI", "(", ")", "[", "]"].contains(&REPS[s].0) { suf2.push(Item::Ch(rep(s, k2))); } }
             suf2.push(Item::Ch(rep(sym(if round { ")" } else { "]" }), k2)));
